@@ -495,6 +495,32 @@ func (k *checker) analysePool(fn *ssa.Function, out sink) {
 		out.hold("SYM-PART", construct, vpos, facts...)
 	}
 
+	// ---- SYM-PART: the partitioned total is non-negative on every path that reaches the spawn loop.
+	// With a negative total the chunk width ⌊total/workers⌋ is negative too, the non-last workers get
+	// empty ranges and the last one a range *below zero* (it calls the callback with negative indices),
+	// while the sequential loop simply visits nothing.
+	for _, v := range visits {
+		if v.err != "" {
+			continue
+		}
+		hiL, ok := v.hi.under(gLast)
+		if !ok {
+			continue
+		}
+		tp := hiL.subst(iAtom, pa.n.sub(pConst(1)))
+		construct := name + ":total-non-negative"
+		lb, exact, how := pa.totalLowerBound(tp)
+		switch {
+		case lb >= 0:
+			out.hold("SYM-PART", construct, gpos, "partitioned total "+tp.String()+" ≥ 0: "+how)
+		case exact:
+			out.violate("SYM-PART", construct, gpos, fmt.Sprintf("the partitioned total %s can be %d (%s) and nothing on the way to the spawn loop excludes it: the last worker is then handed a range below zero and calls the callback with negative indices, while the sequential counterpart visits nothing", tp.String(), lb, how))
+		default:
+			out.undecide("SYM-PART", construct, gpos, "cannot establish that the partitioned total "+tp.String()+" is non-negative: "+how)
+		}
+		break
+	}
+
 	// ---- SHAPE-2
 	for _, v := range visits {
 		if v.err != "" {
@@ -1248,5 +1274,225 @@ func addsBeforeLoop(fn *ssa.Function, pa *poolAnalysis, wg ssa.Value) []ssa.Inst
 			}
 		}
 	})
+	return out
+}
+
+const lbUnknown = int64(-1 << 40)
+
+// totalLowerBound: a lower bound of the value whose polynomial is tp, at the spawn loop: the best of
+// the structural bounds of the SSA values that evaluate to tp, and of the bounds implied by branches
+// that dominate the go statement (early returns on total <= 0 and the like).
+func (pa *poolAnalysis) totalLowerBound(tp Poly) (int64, bool, string) {
+	best, bestExact, bestHow := lbUnknown, false, "no value of the function evaluates to it"
+	consider := func(lb int64, exact bool, how string) {
+		if lb > best || (lb == best && exact && !bestExact) {
+			best, bestExact, bestHow = lb, exact, how
+		}
+	}
+	if c, ok := tp.constant(); ok && c.IsInt() {
+		consider(c.Num().Int64(), true, "constant")
+	}
+	matches := func(v ssa.Value) bool {
+		if !isNumeric(v.Type()) {
+			return false
+		}
+		p, ok := pa.root.eval(v).plain()
+		return ok && p.equal(tp)
+	}
+	ssau.AllInstrs(pa.fn, func(in ssa.Instruction) {
+		v, ok := in.(ssa.Value)
+		if !ok || !matches(v) {
+			return
+		}
+		lb, exact, how := pa.valueLowerBound(pa.root, v, 0)
+		consider(lb, exact, how)
+	})
+	// dominating guards
+	gb := pa.goInstr.Block()
+	for _, b := range pa.fn.Blocks {
+		if len(b.Instrs) == 0 || !b.Dominates(gb) || b == gb {
+			continue
+		}
+		ifi, ok := b.Instrs[len(b.Instrs)-1].(*ssa.If)
+		if !ok {
+			continue
+		}
+		cmp, ok := ifi.Cond.(*ssa.BinOp)
+		if !ok {
+			continue
+		}
+		onTrue := b.Succs[0].Dominates(gb) && !b.Succs[1].Dominates(gb)
+		onFalse := b.Succs[1].Dominates(gb) && !b.Succs[0].Dominates(gb)
+		if !onTrue && !onFalse {
+			continue
+		}
+		op, x, y := cmp.Op, cmp.X, cmp.Y
+		c, isC := ssau.ConstInt(y)
+		if !isC {
+			// constant on the left: mirror
+			if c2, ok := ssau.ConstInt(x); ok && matches(y) {
+				c, isC, x = c2, true, y
+				switch op {
+				case token.LSS:
+					op = token.GTR
+				case token.LEQ:
+					op = token.GEQ
+				case token.GTR:
+					op = token.LSS
+				case token.GEQ:
+					op = token.LEQ
+				}
+			}
+		}
+		if !isC || !matches(x) {
+			continue
+		}
+		bound := lbUnknown
+		switch {
+		case op == token.LSS && onFalse: // !(t < c)
+			bound = c
+		case op == token.LEQ && onFalse: // !(t <= c)
+			bound = c + 1
+		case op == token.GTR && onTrue:
+			bound = c + 1
+		case op == token.GEQ && onTrue:
+			bound = c
+		case op == token.EQL && onTrue:
+			bound = c
+		}
+		if bound > lbUnknown {
+			consider(bound, true, fmt.Sprintf("guarded by the branch at %s (total ≥ %d on the way to the spawn loop)", pa.k.c.P.Pos(ssau.PosOf(ifi)), bound))
+		}
+	}
+	return best, bestExact, bestHow
+}
+
+// valueLowerBound: structural lower bound of an integer value; exact = attained for some input.
+func (pa *poolAnalysis) valueLowerBound(e *env, v ssa.Value, depth int) (int64, bool, string) {
+	if depth > 14 {
+		return lbUnknown, false, "expression too deep"
+	}
+	switch x := v.(type) {
+	case *ssa.Const:
+		if n, ok := ssau.ConstInt(x); ok {
+			return n, true, fmt.Sprint(n)
+		}
+	case *ssa.Convert:
+		return pa.valueLowerBound(e, x.X, depth+1)
+	case *ssa.ChangeType:
+		return pa.valueLowerBound(e, x.X, depth+1)
+	case *ssa.UnOp:
+		if x.Op == token.MUL {
+			if sv, se := e.cellValue(x.X); sv != nil {
+				return pa.valueLowerBound(se, sv, depth+1)
+			}
+		}
+	case *ssa.Phi:
+		best, ex := int64(1<<40), true
+		var parts []string
+		for _, ed := range x.Edges {
+			if ed == ssa.Value(x) {
+				continue
+			}
+			l, e1, h := pa.valueLowerBound(e, ed, depth+1)
+			parts = append(parts, h)
+			if l < best {
+				best = l
+			}
+			ex = ex && e1
+		}
+		return best, ex, "one of {" + strings.Join(parts, " | ") + "}"
+	case *ssa.BinOp:
+		l1, e1, h1 := pa.valueLowerBound(e, x.X, depth+1)
+		switch x.Op {
+		case token.ADD, token.SUB:
+			if c, ok := ssau.ConstInt(x.Y); ok && l1 > lbUnknown {
+				if x.Op == token.SUB {
+					c = -c
+				}
+				return l1 + c, e1, fmt.Sprintf("%s %+d", h1, c)
+			}
+			if x.Op == token.ADD {
+				l2, e2, h2 := pa.valueLowerBound(e, x.Y, depth+1)
+				if l1 > lbUnknown && l2 > lbUnknown {
+					return l1 + l2, e1 && e2, h1 + " + " + h2
+				}
+			}
+		case token.MUL:
+			l2, e2, h2 := pa.valueLowerBound(e, x.Y, depth+1)
+			if l1 >= 0 && l2 >= 0 {
+				return l1 * l2, e1 && e2, h1 + " * " + h2
+			}
+		case token.QUO:
+			l2, _, h2 := pa.valueLowerBound(e, x.Y, depth+1)
+			if l1 >= 0 && l2 >= 1 {
+				return 0, e1, "(" + h1 + ") / (" + h2 + ")"
+			}
+		}
+	case *ssa.Call:
+		switch ssau.Builtin(x) {
+		case "len", "cap":
+			return 0, true, "a length (0 for an empty slice)"
+		case "max":
+			best, ex := lbUnknown, true
+			var parts []string
+			for _, a := range x.Call.Args {
+				l, e1, h := pa.valueLowerBound(e, a, depth+1)
+				parts = append(parts, h)
+				if l > best {
+					best = l
+				}
+				ex = ex && e1
+			}
+			return best, ex, "max(" + strings.Join(parts, ", ") + ")"
+		case "min":
+			best, ex := int64(1<<40), true
+			var parts []string
+			for _, a := range x.Call.Args {
+				l, e1, h := pa.valueLowerBound(e, a, depth+1)
+				parts = append(parts, h)
+				if l < best {
+					best = l
+				}
+				ex = ex && e1
+			}
+			return best, ex, "min(" + strings.Join(parts, ", ") + ")"
+		}
+		callee := x.Call.StaticCallee()
+		if callee != nil && pa.k.inModule(callee) && len(callee.Blocks) > 0 && depth < 6 {
+			ce := e.callEnv(callee, x.Call.Args)
+			best, ex := int64(1<<40), true
+			var parts []string
+			for _, b := range callee.Blocks {
+				if len(b.Instrs) == 0 || b == callee.Recover {
+					continue
+				}
+				if ret, ok := b.Instrs[len(b.Instrs)-1].(*ssa.Return); ok && len(ret.Results) == 1 {
+					l, e1, h := pa.valueLowerBound(ce, ret.Results[0], depth+1)
+					parts = append(parts, h)
+					if l < best {
+						best = l
+					}
+					ex = ex && e1
+				}
+			}
+			if len(parts) > 0 {
+				return best, ex, shortName(callee) + " returns one of {" + strings.Join(dedup(sortedCopy(parts)), " | ") + "}"
+			}
+		}
+	}
+	return lbUnknown, false, "value " + e.str(v) + " has no known lower bound"
+}
+
+func shortName(fn *ssa.Function) string {
+	if o, ok := fn.Object().(*types.Func); ok {
+		return shortFunc(o)
+	}
+	return fn.Name()
+}
+
+func sortedCopy(xs []string) []string {
+	out := append([]string{}, xs...)
+	sort.Strings(out)
 	return out
 }
